@@ -30,7 +30,8 @@ RULE = ("call chains of 1..7 links over {plain, generator, coroutine, stackscope
         "anchors {None, every frame of the true stack, 3 frames of each other thread, suspended generator frame, "
         "2 frames of a suspended sibling greenlet} and limits {None,-1,0,1..n+1}; extract_until additionally with "
         "every frame as limit. one Coq case = one live stack + a batch of queries; non-trivial = some query of the "
-        "batch yields >= 2 frames or an error. histories (kind hist): a worker greenlet's loop frame / a generator frame "
+        "batch yields >= 2 frames or an error; StackSlice objects are built by keyword, positionally "
+        "(StackSlice(o), (o, i), (o, i, n)) and mixed, rotating per query. histories (kind hist): a worker greenlet's loop frame / a generator frame "
         "inside a child greenlet extracts in 2..4 rounds from the SAME frame while the parent re-enters it from call depths "
         "0..4 / different callers advance it (driver in the main or in a nested greenlet), each round compared with the "
         "model and the oracle on the stack as it is then. py_slice/del_slice: exhaustive lists of length 0..6 (quick 0..4), "
@@ -144,11 +145,27 @@ def _ctx_class():
             api = self.desc["api"]
             qs = []
             if api == "slice":
+                SS = ss.StackSlice
+                k = 0
                 for fo, io in A:
                     for fi, ii in A:
                         for l in L:
-                            qs.append((ss.extract, (ss.StackSlice(outer=fo, inner=fi, limit=l),),
-                                       {"with_contexts": False}, ["slice", io, ii, l]))
+                            # the public constructor is StackSlice(outer, inner, limit): a share of the
+                            # slices is built positionally / mixed instead of by keyword
+                            k += 1
+                            styles = [lambda: SS(outer=fo, inner=fi, limit=l), lambda: SS(fo, fi, l),
+                                      lambda: SS(fo, fi, limit=l), lambda: SS(fo, inner=fi, limit=l),
+                                      lambda: SS(limit=l, inner=fi, outer=fo)]
+                            if l is None:
+                                styles.append(lambda: SS(fo, fi))
+                                if fi is None:
+                                    styles.append(lambda: SS(fo))
+                            try:
+                                sl = styles[(k * 7 + len(A)) % len(styles)]()
+                            except Exception as ex:      # the documented constructor call is refused
+                                qs.append((lambda e: e, (ex,), {}, ["slice", io, ii, l]))
+                                continue
+                            qs.append((ss.extract, (sl,), {"with_contexts": False}, ["slice", io, ii, l]))
             elif api == "since":
                 for fo, io in A:
                     qs.append((ss.extract_since, (fo,), {"with_contexts": False}, ["since", io]))
